@@ -80,9 +80,21 @@ func writeHeader(t tarfs_t, o Op) (out string) {
 			out = "OPanic"
 		}
 	}()
-	sum := sha1.Sum(o.B) //nolint:gosec
-	hdr := tar.Header{Name: o.P, Typeflag: tar.TypeReg, Mode: int64(o.Perm), Size: int64(len(o.B)),
-		PAXRecords: map[string]string{"APK-TOOLS.checksum.SHA1": hex.EncodeToString(sum[:])}}
+	var hdr tar.Header
+	switch o.K {
+	case "WriteHeaderDir":
+		hdr = tar.Header{Name: o.P, Typeflag: tar.TypeDir, Mode: int64(o.Perm), ModTime: time.Unix(o.T, 0), AccessTime: time.Unix(o.T, 0)}
+	case "WriteHeaderSym":
+		sum := sha1.Sum([]byte(o.Q)) //nolint:gosec
+		hdr = tar.Header{Name: o.P, Typeflag: tar.TypeSymlink, Linkname: o.Q, Mode: 0o777,
+			PAXRecords: map[string]string{"APK-TOOLS.checksum.SHA1": hex.EncodeToString(sum[:])}}
+	case "WriteHeaderLink":
+		hdr = tar.Header{Name: o.P, Typeflag: tar.TypeLink, Linkname: o.Q}
+	default:
+		sum := sha1.Sum(o.B) //nolint:gosec
+		hdr = tar.Header{Name: o.P, Typeflag: tar.TypeReg, Mode: int64(o.Perm), Size: int64(len(o.B)),
+			PAXRecords: map[string]string{"APK-TOOLS.checksum.SHA1": hex.EncodeToString(sum[:])}}
+	}
 	installed, err := t.WriteHeader(hdr, &entryFS{name: o.P, data: append([]byte{}, o.B...)}, thePkg)
 	if err != nil {
 		return errOut(err)
@@ -94,8 +106,15 @@ func writeHeader(t tarfs_t, o Op) (out string) {
 }
 
 func (o Op) tgal() string {
-	if o.K == "WriteHeader" {
+	switch o.K {
+	case "WriteHeader":
 		return gal.App("TWriteHeader", gpath(o.P), gal.Bytes(o.B), gperm(o.Perm))
+	case "WriteHeaderDir":
+		return gal.App("TWriteHeaderDir", gpath(o.P), gperm(o.Perm), gal.Z(o.T))
+	case "WriteHeaderSym":
+		return gal.App("TWriteHeaderSym", gpath(o.P), gpath(o.Q), gal.Bytes([]byte(o.Q)))
+	case "WriteHeaderLink":
+		return gal.App("TWriteHeaderLink", gpath(o.Q), gpath(o.P))
 	}
 	return gal.App("TOp", o.gal())
 }
@@ -117,7 +136,7 @@ func observeTar(gen string, ops []Op) (gops, obs []string) {
 			fmt.Printf("IMPL-VIOLATION tag=step-does-not-return %s\n", b)
 			os.Exit(3)
 		})
-		if o.K == "WriteHeader" {
+		if strings.HasPrefix(o.K, "WriteHeader") {
 			obs[i] = writeHeader(m, o)
 		} else {
 			obs[i] = wd.step(o)
@@ -147,7 +166,10 @@ func runTarCase(w *gal.Writer, gen string, ops []Op) {
 		Trivial: len(ops) == 0, Desc: tdesc{gen, ops, obs}})
 }
 
-func wh(p, s string) Op { return Op{K: "WriteHeader", P: p, B: []byte(s), Perm: 0o644} }
+func wh(p, s string) Op    { return Op{K: "WriteHeader", P: p, B: []byte(s), Perm: 0o644} }
+func whDir(p string) Op    { return Op{K: "WriteHeaderDir", P: p, Perm: 0o750, T: 1000000} }
+func whSym(t, p string) Op { return Op{K: "WriteHeaderSym", P: p, Q: t} }
+func whLnk(o, n string) Op { return Op{K: "WriteHeaderLink", P: n, Q: o} }
 
 type tscenario struct {
 	name string
@@ -174,6 +196,14 @@ func tarCorpus() []tscenario {
 		{"empty-entry", []Op{wh("z", ""), p1("Stat", "z"), p1("ReadFile", "z"), open("z", fl(0)), seek(0, 0, 0), read(0, 1), write(0, "w"), p1("ReadFile", "z"), wh("z", ""), wh("z", "w")}},
 		{"through-links", []Op{mkdir("d"), wh("d/f", "hello"), symlink("d", "l"), p1("ReadFile", "l/f"), p1("Stat", "l/f"), symlink("d/f", "lf"), p1("ReadFile", "lf"), p1("Stat", "lf"), open("lf", fl(0)), read(0, 9), wfile("lf", "via"), p1("ReadFile", "d/f"),
 			wh("l/g", "gg"), p1("ReadFile", "d/g"), wh("/d/h", "hh"), p1("ReadFile", "d/h"), p1("ReadDir", "d")}},
+		// directory, symbolic-link and hard-link headers
+		{"dir-headers", []Op{whDir("d"), p1("Stat", "d"), whDir("d/e/f"), p1("Stat", "d/e"), p1("Stat", "d/e/f"), p1("ReadDir", "d"), whDir("d"), p1("Stat", "d"), wh("d/x", "x"), whDir("d/x"), whDir("d/x/y"),
+			symlink("d", "l"), whDir("l"), whDir("l/g"), p1("ReadDir", "d"), symlink("nowhere", "dl"), whDir("dl"), whDir("dl/z"), whDir("/"), whDir("."), whDir("a/../b"), p1("ReadDir", "."), Op{K: "WriteHeaderDir", P: "m", Perm: 0o700, T: 5}, p1("Stat", "m")}},
+		{"symlink-headers", []Op{wh("f", "hello"), whSym("f", "l"), p1("Readlink", "l"), p1("ReadFile", "l"), p1("Lstat", "l"), whSym("f", "l"), whSym("g", "l"), p1("Readlink", "l"), symlink("f", "m"), whSym("f", "m"), whSym("x", "m"),
+			wfile("r", "f"), whSym("f", "r"), whSym("q", "r"), mkdir("d"), whSym("f", "d"), whSym("../f", "d/up"), p1("ReadFile", "d/up"), whSym("t", "nodir/x"), whSym("t", "f/x"), whSym("", "e"), p1("Readlink", "e"), whSym("/f", "abs"), p1("ReadFile", "abs"),
+			wh("c", "l"), whSym("l", "c"), p1("ReadDir", ".")}},
+		{"hardlink-headers", []Op{wh("f", "hello"), whLnk("f", "g"), p1("ReadFile", "g"), p1("Stat", "g"), wfile("g", "zz"), p1("ReadFile", "f"), whLnk("f", "g"), whLnk("nope", "h"), whLnk("f", "nodir/h"), mkdir("d"), whLnk("d", "dd"), whLnk("f", "f/x"),
+			whSym("f", "l"), whLnk("l", "viaLink"), p1("ReadFile", "viaLink"), open("f", fl(0)), whLnk("f", "k"), p1("Remove", "f"), p1("ReadFile", "k"), read(0, 5), p1("ReadDir", ".")}},
 		{"metadata", []Op{wh("f", "hello"), Op{K: "Chmod", P: "f", Perm: 0o600}, Op{K: "Chown", P: "f", Uid: 3, Gid: 4}, Op{K: "Chtimes", P: "f", T: 1000000}, p1("Stat", "f"), Op{K: "SetXattr", P: "f", A: "user.a", B: []byte("1")}, p1("ListXattrs", "f"), p1("ReadFile", "f"),
 			Op{K: "WriteHeader", P: "x", B: []byte("exe"), Perm: 0o755}, p1("Stat", "x")}},
 	}
@@ -187,13 +217,28 @@ func randomTar(r *gal.Rand) []Op {
 	ops := make([]Op, 0, n)
 	for i := 0; i < n; i++ {
 		switch x := r.Intn(100); {
-		case x < 22:
+		case x < 16:
 			p := g.freshPath()
 			if r.Chance(1, 3) {
 				p = g.path()
 			}
 			g.known = append(g.known, p)
 			ops = append(ops, wh(strings.TrimPrefix(p, "/"), gal.Pick(r, tContents)))
+		case x < 22:
+			p := g.freshPath()
+			if r.Chance(1, 3) {
+				p = g.path()
+			}
+			g.known = append(g.known, p)
+			switch r.Intn(3) {
+			case 0:
+				g.dirs = append(g.dirs, p)
+				ops = append(ops, whDir(p))
+			case 1:
+				ops = append(ops, whSym(g.target(), p))
+			default:
+				ops = append(ops, whLnk(g.path(), p))
+			}
 		case x < 34:
 			// opens of names that probably exist, all flag combinations
 			f := &Flags{Acc: r.Intn(3), App: r.Chance(1, 5), Creat: r.Chance(1, 4), Trunc: r.Chance(1, 4)}
